@@ -372,6 +372,15 @@ func C15(c *core.Ctx) {
 		}
 	}
 	c.Check("R4", "removal-unregisters", token.NoPos, okR4, "the driver's Remove URR always unregisters the URR from periodic reporting before the rule is removed (C03 R8)")
+	// "exactly the set ... currently registered with that period": the server keeps one entry per (SEID, URR, period
+	// group) and a removal clears one group, so a URR must be registered once (C03 R8 add-caller)
+	okOnce := true
+	for _, f := range sub.Findings {
+		if strings.Contains(f.Key, "add-caller") || strings.Contains(f.Key, "add-once") {
+			okOnce = false
+		}
+	}
+	c.Check("R4", "registered-once", token.NoPos, okOnce, "a URR is registered with the periodic server by Create URR only, or behind an unregistration of the same (SEID, URR): a second registration is queried at both cadences and survives the URR's removal (C03 R8)")
 	// "none whose session has ended": every way a session ends (deletion, re-association of its node, SEID-0
 	// report response) closes the session, and closing removes each of its URRs through Remove URR
 	// (shared with C01 R5/R6)
@@ -381,7 +390,9 @@ func C15(c *core.Ctx) {
 		c01EndPaths(c, "R4", false)
 		// Close only removes what the session still knows: a URR id is forgotten only where its final report is
 		// emitted (C01 R4) - an id dropped on a failed create keeps its periodic registration for ever
-		shareFrom(c, "C01", "R4", func(o *core.Obligation) bool { return o.Rule == "R4" && strings.Contains(o.Key, "/R4/forget-") && strings.Contains(o.Key, ":URR:") }, 2, "places that forget a URR id")
+		shareFrom(c, "C01", "R4", func(o *core.Obligation) bool {
+			return o.Rule == "R4" && strings.Contains(o.Key, "/R4/forget-") && strings.Contains(o.Key, ":URR:")
+		}, 2, "places that forget a URR id")
 	}
 }
 
